@@ -177,6 +177,11 @@ class C18(Prop):
         "ASCII tokens; int() restricted to [+-]?[0-9]+",
         "task-runner mode (namespace=None): initial context = core_args + task_args",
         "collection loading replaced by assigning Program.collection (loader is C20's subject)",
+        "explicit don't-care region of the shadowing clause (Spec/C18Spec.v glued_cluster_reading): a core "
+        "option written with its value glued to the short flag ('-fcv') inside a task that declares that very "
+        "short flag as a flag taking NO value is, in that task's grammar, the cluster -f -c -v; what the "
+        "further letters do is not judged (a change confined to that region shows up as a correspondence "
+        "break without a failing specification input)",
     ]
     not_modelled = ["--help's per-task special case and value-less optional core options (-l, -h) as moved options",
                     "update_config (core values -> config overrides; C15)", "kwargs as received by task bodies "
